@@ -1,4 +1,4 @@
-"""A small Python -> Lean translator for pure integer/boolean functions.
+"""A small Python -> Lean translator for pure integer/boolean functions (and functions returning `bytes([...])` of integers).
 
 Supported: functions and methods whose body is made of assignments (also tuple targets and `divmod`), augmented
 assignments, `if/elif/else` (branches may return), `return`, one accumulating `for x in <param>: acc = expr` loop, `pass`
@@ -103,8 +103,18 @@ class Tr:
         if isinstance(e, ast.Tuple):
             vals = [self.expr(v) for v in e.elts]
             return "(" + ", ".join(t for t, _ in vals) + ")", "tuple"
+        if isinstance(e, ast.List) and all(not isinstance(x, ast.Starred) for x in e.elts):
+            vals = [self.expr(v) for v in e.elts]
+            if any(k != "nat" for _, k in vals):
+                raise Untranslatable("list of non-integers")
+            return "[" + ", ".join(t for t, _ in vals) + "]", "list"
         if isinstance(e, ast.Call):
             f = e.func
+            if isinstance(f, ast.Name) and f.id in ("bytes", "bytearray") and len(e.args) == 1 and not e.keywords:
+                t, k = self.expr(e.args[0])
+                if k != "list":
+                    raise Untranslatable("bytes() of something that is not a list literal")
+                return t, "list"            # every element is the result of `& 0xFF` or a byte: checked by the equality proof, not here
             if isinstance(f, ast.Attribute) and isinstance(f.value, ast.Name) and f.value.id == "self" and f.attr in self.siblings and not e.args:
                 return f"({self.siblings[f.attr][0]} {' '.join(self.self_fields.values())})", self.siblings[f.attr][1]
             if isinstance(f, ast.Name) and f.id in self.module_funcs and not e.keywords:
